@@ -10,6 +10,8 @@ pub fn run(rep: &mut Report) {
     rep.assume("`every seed` is bounded by the base seeds and the deviation bound; a failure that needs two specific unusual words in one run is outside d <= 1");
     rep.assume("the main loop's condition is LessThanN::iterations(n) wrapped in a recording condition; stack height and population size are read at every test of it");
     runs::sweep(rep, Flags { c16: true, ..Default::default() }, "templates.run-explorer", &|_| true);
+    rep.alpha("every template once more on an instance far beyond those bounds (9..33 individuals, 6..20 dimensions, 11..17 cities, 60 (quick) / 400 (thorough) iterations), default streams of 2 / 6 seeds");
+    runs::large(rep, Flags { c16: true, ..Default::default() }, "templates.large-instances");
 }
 
 pub fn replay(case: &Value) -> Result<Vec<(String, String)>, String> {
